@@ -105,7 +105,10 @@ func (c *Ctx) IsModObj(o types.Object) bool {
 // short package name used in construct keys: path relative to the module ("." for the root)
 func (c *Ctx) shortPkg(path string) string {
 	if path == c.Mod {
-		return "main"
+		if i := strings.LastIndex(path, "/"); i >= 0 {
+			return path[i+1:]
+		}
+		return path
 	}
 	s := strings.TrimPrefix(path, c.Mod+"/")
 	// last element is unique in this module
